@@ -31,9 +31,11 @@ pub fn repl() -> Filter<RunPtr<DataKind>> {
 }
 
 fn eval(runner: &Runner, code: String, input: Val) -> Result<(), Error> {
+    // the definitions of `filter` refer to this variable, so it has to be bound
+    let vars = ["!input_filename".to_string()];
     let (ctx, filter) =
-        filter::parse_compile(&"<repl>".into(), &code, &[], &[]).map_err(Error::Report)?;
-    let ctx = Vars::new(ctx);
+        filter::parse_compile(&"<repl>".into(), &code, &vars, &[]).map_err(Error::Report)?;
+    let ctx = Vars::new([Val::Null].into_iter().chain(ctx));
     let inputs = core::iter::once(Ok(input));
     let writer = &runner.writer;
     with_stdout(|out| run(runner, &filter, ctx, inputs, |v| write(out, writer, &v)))?;
